@@ -824,6 +824,8 @@ class System:
                     print("{}Tolerances met after {} iterations".format(pname, iters))
                 break
             v, i, state = vi, ii, ostate
+        if not (np.all(np.isfinite(v)) and np.all(np.isfinite(i))):
+            raise ValueError("Unstable system: solution is not finite")
         return v, i, iters, state
 
     def _calc_energy(self, phase, pwr):
